@@ -1062,3 +1062,128 @@ func wireEveryMatchField(w *World, wc *wireCtx, r *Report, prop string, langs []
 	}
 	r.note("%s: returns inside field loops examined: %d", rule, n)
 }
+
+// */emit-once-keyed-by-identity: what a generator remembers across packets ("already emitted") is keyed by the packet's own name.
+//
+// A generator instance lives for one Generate call and may keep a set of the packets it has written, to write each once. Such a set
+// is harmless only when its key identifies what is being skipped - the Name of the packet whose text is guarded. A set keyed by
+// anything else (the name of a sample variable, of a member, of a helper function) makes the text emitted for one packet depend on
+// which other packets were emitted before it: a declaration is missing from the second test function that needs it (C17), a type
+// or helper is emitted for one of two distinct constructs that merely share a name (C07).
+// Decided: every lookup in a map-typed member of a generator struct that is also updated by generator code has, as its key, the
+// Name of a *model.Packet (directly, or through a string parameter bound to such a Name at every call site).
+func wireEmitOnceKeys(w *World, wc *wireCtx, r *Report, prop string) {
+	rule := prop + "/emit-once-keyed-by-identity"
+	isPacketName := func(v ssa.Value) bool {
+		ld, ok := stripIdentity(v).(*ssa.UnOp)
+		if !ok || ld.Op != token.MUL {
+			return false
+		}
+		fa, ok := ld.X.(*ssa.FieldAddr)
+		if !ok {
+			return false
+		}
+		tn, f, _, _ := fieldOf(fa)
+		return tn == "Packet" && f == "Name"
+	}
+	n := 0
+	for _, ga := range anchorTable {
+		own := wc.anchors[ga.Lang]["own"]
+		inOwn := map[*ssa.Function]bool{}
+		for _, f := range own {
+			inOwn[f] = true
+		}
+		// maps of the generator struct that generator code updates
+		updated := map[string]bool{}
+		instMap := func(v ssa.Value) string {
+			genStruct := func(t types.Type) string {
+				if p, ok := t.Underlying().(*types.Pointer); ok {
+					t = p.Elem()
+				}
+				if n := namedOf(t); n != nil && n.Obj().Pkg() != nil && n.Obj().Pkg().Path() == parserPath && strings.HasSuffix(n.Obj().Name(), "Generator") {
+					return n.Obj().Name()
+				}
+				return ""
+			}
+			v = stripIdentity(v)
+			if _, isMap := v.Type().Underlying().(*types.Map); !isMap {
+				return ""
+			}
+			switch x := v.(type) {
+			case *ssa.Field:
+				if g := genStruct(x.X.Type()); g != "" {
+					return g + "." + fieldNameOf(x.X.Type(), x.Field)
+				}
+			case *ssa.UnOp:
+				if fa, ok := x.X.(*ssa.FieldAddr); ok && x.Op == token.MUL {
+					if g := genStruct(fa.X.Type()); g != "" {
+						return g + "." + fieldNameOf(fa.X.Type(), fa.Field)
+					}
+				}
+			}
+			return ""
+		}
+		for _, fn := range own {
+			forEachInstr(fn, func(_ *ssa.BasicBlock, ins ssa.Instruction) {
+				if mu, ok := ins.(*ssa.MapUpdate); ok {
+					if m := instMap(mu.Map); m != "" {
+						updated[m] = true
+					}
+				}
+			})
+		}
+		var keyOK func(fn *ssa.Function, k ssa.Value, depth int) bool
+		keyOK = func(fn *ssa.Function, k ssa.Value, depth int) bool {
+			if isPacketName(k) {
+				return true
+			}
+			p, ok := stripIdentity(k).(*ssa.Parameter)
+			if !ok || depth > 2 {
+				return false
+			}
+			idx := -1
+			for i, q := range fn.Params {
+				if q == p {
+					idx = i
+				}
+			}
+			sites := 0
+			good := true
+			for _, g := range own {
+				forEachInstr(g, func(_ *ssa.BasicBlock, ins ssa.Instruction) {
+					c, ok := ins.(ssa.CallInstruction)
+					if !ok || calleeOf(c) != fn || idx < 0 || idx >= len(c.Common().Args) {
+						return
+					}
+					sites++
+					if !keyOK(g, c.Common().Args[idx], depth+1) {
+						good = false
+					}
+				})
+			}
+			return sites > 0 && good
+		}
+		for _, fn := range own {
+			cnt := 0
+			forEachInstr(fn, func(_ *ssa.BasicBlock, ins ssa.Instruction) {
+				lk, ok := ins.(*ssa.Lookup)
+				if !ok {
+					return
+				}
+				m := instMap(lk.X)
+				if m == "" || !updated[m] {
+					return
+				}
+				n++
+				cnt++
+				key := fmt.Sprintf("%s %s: lookup #%d in %s is keyed by a packet's name", ga.Lang, fnKey(fn), cnt, m)
+				if keyOK(fn, lk.Index, 0) {
+					r.pass(rule, key, w.instrPos(lk), "")
+				} else {
+					r.fail(rule, key, w.instrPos(lk), "the generator remembers something across packets under a key that is not the name of a packet: whether a piece of text is emitted for one packet then depends on which other packets (with a member / variable / helper of the same name) were emitted before it")
+				}
+			})
+		}
+	}
+	r.note("%s: lookups in generator-instance maps examined: %d", rule, n)
+}
